@@ -351,6 +351,11 @@ def run_case(concepts, case, spec):
         call(list, lat.downset_union(seeds))
         if len(seeds) > 2:
             seeds.pop(0)
+    if n <= 400:                        # the lattice itself / its atoms as the seed collection
+        call(list, lat.upset_union(lat))
+        call(list, lat.downset_union(lat))
+        call(list, lat.upset_union(lat.atoms))
+        call(list, lat.downset_union(lat.atoms))
     call(list, lat.upset_union([]))
     call(list, lat.downset_union(()))
     for _ in range(4):                  # abandoned traversals
